@@ -478,6 +478,18 @@ func (h *hydra) SummonSwamp(ctx context.Context, islandID uint64, swampName name
 		if verifhook.Enabled {
 			verifhook.Point("summon.leave.dec", ctx, swampName.Get(), waiter)
 		}
+		// Leaving the wait slot (waiter lock, summonMu) can take longer than the idle limit of the instance when the
+		// process is starved; its close listener has then closed the instance we are about to hand out, and what the
+		// caller writes into it would never reach the file. Summon again: that waits for the close and loads a live
+		// instance. (IsClosing also restarts the idle time of a live instance, so the caller gets all of it for its
+		// BeginVigil.)
+		if err == nil && swampObj != nil && swampObj.IsClosing() {
+			if ctx.Err() != nil {
+				swampObj, err = nil, ctx.Err()
+			} else {
+				swampObj, err = h.SummonSwamp(ctx, islandID, swampName)
+			}
+		}
 	}()
 
 	var swampObject swamp.Swamp
